@@ -731,9 +731,12 @@ def rule_destroy(ctx, rep, rid):
     rep.check(any(a[0] == "ne" and a[2] == ("c", 0) and a[1][0] == "call" and a[1][1] == "cds_lfht_is_empty" for a in lv), rid, "destroy.deferred-only-if-empty",
               "destroy work is queued only for an empty table (-EPERM otherwise)", "destroy work queued without the emptiness check", [q[0].where()])
     cb = ir.expr(w, q[0].args[2]) if len(q[0].args) > 2 else None
-    rep.check(cb == ("fn", "do_auto_resize_destroy_cb"), rid, "destroy.queues-destroy-cb", "the queued work is do_auto_resize_destroy_cb", "queued work is %s" % ir.expr_str(cb), [q[0].where()])
+    cbf = m.fn(cb[1]) if cb and cb[0] == "fn" else None
+    rep.check(cbf is not None and bool(table_free(cbf)), rid, "destroy.queues-destroy-cb", "the queued work (%s) is the function that releases the table" % (cb[1] if cbf else "?"),
+              "queued work %s does not release the table" % ir.expr_str(cb), [q[0].where()])
+    if cbf is None:
+        return
     # (2) the deferred callback: empty check / bucket free, then counters, mutex, then the table itself last; nothing touches ht afterwards
-    cbf = fn(ctx, "do_auto_resize_destroy_cb")
     rep.touch(cbf)
     pf = table_free(cbf)
     db = pat.calls(cbf, "cds_lfht_delete_bucket")
